@@ -22,7 +22,9 @@ SPEC = dict(
     bounded=[dict(name='C09-bounded', script='bounded/C09.py', timeout=7200)],
     replay_finder='bounded/C09.py',
     explanation='deductive obligations for the error object + exhaustive bounded enumeration of token strings; see proved/bounded clauses',
-    proved_clauses=['ProFormaFormatError.__init__ raises nothing for any (msg, index, sequence)',
+    proved_clauses=['the module-level parse(): every path returns or raises a ValueError-family error -- no IndexError from the chain list, no other '
+                    'exception (the driver enters through its contract; the constructor and _is_unmodified are assumed not to raise)',
+                    'ProFormaFormatError.__init__ raises nothing for any (msg, index, sequence)',
                     'cursor helpers, _parse_integer, _parse_modification(s), three phases: only ValueError-family exceptions, cursor invariant, forward progress, termination variants'],
     bounded_clauses=['parse(text) returns a serializable annotation or raises ValueError, and terminates: all strings of <= 4/5 tokens',
                      'deferred validation: unresolvable modification => mass/comp raise (9 positions x 14 values + ontology entries without mass)'],
